@@ -40,6 +40,7 @@ type Disk struct {
 	Base   []byte // file content when recording started (durable by definition)
 	Log    []IOEvent
 
+	curOff  int64 // offset of the write being judged (-1: not a write)
 	Armed   bool
 	Plan    *FaultPlan
 	Multi   []FaultPlan // several faults in one run: each fires at its own armed-call index K (concurrent arms)
@@ -105,6 +106,17 @@ func (d *Disk) shouldFail(op string) (bool, string) {
 	if !d.Armed || d.Plan == nil || d.Fired != "" {
 		return false, ""
 	}
+	if d.Plan.Only == "metawrite" {
+		// the write of a meta page, whatever its index among the calls
+		if op != "write" || d.PageSize <= 0 || d.curOff < 0 || d.curOff >= int64(2*d.PageSize) {
+			return false, ""
+		}
+		if d.Veto != nil && d.Veto(op, d.MetaWritten) {
+			return false, ""
+		}
+		d.FiredAfterMeta = d.MetaWritten
+		return true, d.Plan.Kind
+	}
 	if d.Plan.Only != "" && d.Plan.Only != op {
 		return false, ""
 	}
@@ -130,7 +142,10 @@ func (d *Disk) Write(db *bolt.DB, b []byte, off int64, real func([]byte, int64) 
 	if db.IsReadOnly() {
 		d.ROWrite++
 	}
-	if fail, kind := d.shouldFail("write"); fail {
+	d.curOff = off
+	fail, kind := d.shouldFail("write")
+	d.curOff = -1
+	if fail {
 		d.FiredOp = "write"
 		d.FiredAt = len(d.Log)
 		switch kind {
